@@ -298,9 +298,7 @@ def gen_C09(w, tier):
                     psA, psB = sc.w.ps[m["ka"]], sc.w.ps[kb_]
                     uses = {"A": "MN", "B": "MN", "S": "S"}[m["side"]]
                     # parameters that differ in the group or in a blinding element this role uses
-                    differs = not same_params and not (
-                        (psB.base == m["ka"] or psA.base == kb_ or (psA.base and psA.base == psB.base)) and
-                        all(sd not in uses for sd in _diff_seeds(psA, psB)))
+                    differs = (psA.gid != psB.gid) or any(sd in uses for sd in _diff_seeds(psA, psB))
                     if side2 != m["side"]:
                         if o == "ok":
                             return "state saved by %s restored as %s" % (m["side"], side2)
